@@ -16,6 +16,32 @@
 //!   --histories K --moves M K histories on seeded random graphs (2..=maxn vertices), M calls each
 //!   --anneal K              K annealer runs on random graphs, parameters cycling through the grid
 //!   --maxn N                largest random graph (default 8)
+//!   --annealbig K           K SHORT annealer runs (10 / 20 / 50 iterations, the library's default temperatures and
+//!                           cooling, RankwidthAnnealer::new) on random graphs with --bigmin..--bigmax (14..32) vertices:
+//!                           the regime in which a run ends while the accepted tree is still worse than the best one
+//!                           seen, so that "the returned tree is the best-WIDTH tree, not the last / best-score one" and
+//!                           "no wider than the starting tree" are observable (AnnealNoWorse, AnnealValid, WidthOK)
+//!   --api K                 audit item #16: K histories (graphs as above, with --fixed also the fixed graphs) made of
+//!                           DIRECT calls with caller-chosen arguments, interleaved with the random moves and width
+//!                           queries above:
+//!                             hand     the starting tree built with DecompTree::new / add_leaf / add_interior (a
+//!                                      caterpillar) instead of random_decomp, every other history
+//!                             swapd    swap_subtrees((p1, c1), (p2, c2)) for ANY two disjoint subtrees (not only the
+//!                                      leaf pairs / adjacent pairs the random moves pick); the caller follows the
+//!                                      library's own protocol: path(c1, c2), clear_rank on each of its edges, swap
+//!                             moved    move_subtree(path(a, b)) for any a, b at distance >= 3; cache emptied with
+//!                                      clear_ranks() or selectively (path edges + the edge a1-ao that disappears)
+//!                             setrank  set_rank / rank / clear_rank with either key order
+//!                             compute  compute_ranks() alone
+//!                             query    partition() of every tree edge in both orientations, path() between random
+//!                                      nodes, edges(), num_edges()
+//!                             sort     sort_nhds()
+//!                           then an annealer whose starting tree is installed with set_init_decomp (all setters read
+//!                           back through the getters), and one call of the top-level rankwidth::rank_decomp.
+//!                           Every event logs the FULL node array and cache after the call (and before it where the
+//!                           arguments have to be judged), so TLC decides ValidTree / CacheCoherent / WidthOK on them.
+//!   Backends: histories and annealer runs alternate between vec_graph::Graph and hash_graph::Graph (field `be`);
+//!   the code under test only asks vertices() and connected().
 
 use crate::eng_simp::with_watchdog;
 use crate::util::{arg_flag, arg_num, guarded, Tr};
@@ -23,6 +49,7 @@ use quizx::graph::{EType, GraphLike, VType};
 use quizx::rankwidth::annealer::RankwidthAnnealer;
 use quizx::rankwidth::decomp_tree::{DecompNode, DecompTree};
 use quizx::vec_graph::Graph;
+type HashGraph = quizx::hash_graph::Graph;
 use rand::rngs::SmallRng;
 use rand::{Rng, SeedableRng};
 use serde_json::{json, Value};
@@ -32,10 +59,16 @@ struct AG {
     name: String,
     n: usize,
     edges: Vec<(usize, usize)>,
+    /// backend the graph is built in (set by `on`)
+    be: &'static str,
 }
 
 fn ag(name: &str, n: usize, edges: &[(usize, usize)]) -> AG {
-    AG { name: name.to_string(), n, edges: edges.to_vec() }
+    AG { name: name.to_string(), n, edges: edges.to_vec(), be: "vec" }
+}
+
+fn on(a: &AG, be: &'static str) -> AG {
+    AG { be, ..a.clone() }
 }
 
 fn fixed_graphs() -> Vec<AG> {
@@ -76,7 +109,11 @@ fn fixed_graphs() -> Vec<AG> {
 }
 
 fn random_graph(r: &mut impl Rng, maxn: usize, idx: usize) -> AG {
-    let n = r.random_range(2..=maxn.max(2));
+    random_graph_between(r, 2, maxn.max(2), idx)
+}
+
+fn random_graph_between(r: &mut impl Rng, minn: usize, maxn: usize, idx: usize) -> AG {
+    let n = r.random_range(minn..=maxn.max(minn));
     // one in twelve edgeless, otherwise a density class
     let p = match r.random_range(0..12) {
         0 => 0.0,
@@ -92,16 +129,16 @@ fn random_graph(r: &mut impl Rng, maxn: usize, idx: usize) -> AG {
             }
         }
     }
-    AG { name: format!("R{idx}"), n, edges }
+    AG { name: format!("R{idx}"), n, edges, be: "vec" }
 }
 
 /// all vertices Z; vec_graph numbers them 0..n-1 in creation order; edge types alternate (the
 /// code under test only asks `connected`)
-fn build(a: &AG) -> Graph {
-    let mut g = Graph::new();
+fn build<G: GraphLike>(a: &AG) -> G {
+    let mut g = G::new();
     for i in 0..a.n {
         let v = g.add_vertex(VType::Z);
-        assert_eq!(v, i, "vec_graph vertex numbering");
+        assert_eq!(v, i, "vertex numbering of the backend");
     }
     for (k, &(u, v)) in a.edges.iter().enumerate() {
         g.add_edge_with_type(u, v, if k % 2 == 0 { EType::H } else { EType::N });
@@ -179,6 +216,9 @@ fn gtags(a: &AG) -> Vec<String> {
     if a.n == 2 {
         t.push("n2".to_string());
     }
+    if a.be == "hash" {
+        t.push("be=hash".to_string());
+    }
     t
 }
 
@@ -202,12 +242,16 @@ struct Counts {
     panics: usize,
     timeouts: usize,
     unsound_stops: usize,
+    api_histories: usize,
+    direct_calls: usize,
+    direct_skipped: usize,
+    hash_groups: usize,
 }
 
 const KINDS: [&str; 3] = ["swap_leaves", "local_swap", "move_subtree"];
 
 fn begin_event(a: &AG, tree: &mut DecompTree, res: &str, msg: &str, how: &str) -> Value {
-    json!({"k": "begin", "name": a.name, "n": a.n, "how": how, "res": res, "msg": msg,
+    json!({"k": "begin", "name": a.name, "n": a.n, "how": how, "res": res, "msg": msg, "be": a.be,
            "adj": a.edges.iter().map(|&(u, v)| json!([u + 1, v + 1])).collect::<Vec<_>>(),
            "nodes": nodes_json(tree), "cache": cache_json(tree),
            "leaves": tree.leaves.iter().map(|x| x + 1).collect::<Vec<_>>(),
@@ -215,12 +259,100 @@ fn begin_event(a: &AG, tree: &mut DecompTree, res: &str, msg: &str, how: &str) -
            "tags": gtags(a)})
 }
 
+/// the outcome of one logged call: Some(tree) = go on, None = the history stops here
+fn finish<T>(r: Option<(DecompTree, Result<T, String>)>, kind: &str, extra: Value, tags: &[String], tr: &mut Tr, c: &mut Counts,
+             ok: impl FnOnce(&mut DecompTree, T) -> Option<Value>) -> Option<DecompTree> {
+    let with = |mut e: Value| {
+        for (k, v) in extra.as_object().unwrap() {
+            e[k.as_str()] = v.clone();
+        }
+        e
+    };
+    match r {
+        None => {
+            c.timeouts += 1;
+            tr.emit(with(json!({"k": kind, "res": "timeout", "tags": tags})));
+            None
+        }
+        Some((mut t, Err(msg))) => {
+            c.panics += 1;
+            tr.emit(with(json!({"k": kind, "res": "panic", "msg": msg, "nodes": nodes_json(&t), "cache": cache_json(&mut t), "tags": tags})));
+            None
+        }
+        Some((mut t, Ok(x))) => match ok(&mut t, x) {
+            // the closure declined (no admissible argument found): nothing was called, nothing is logged
+            None => {
+                c.direct_skipped += 1;
+                Some(t)
+            }
+            Some(mut e) => {
+                e["k"] = json!(kind);
+                e["res"] = json!("ok");
+                e["nodes"] = nodes_json(&t);
+                e["cache"] = cache_json(&mut t);
+                e["tags"] = json!(tags);
+                tr.emit(with(e));
+                if !structurally_sound(&t) {
+                    c.unsound_stops += 1;
+                    return None;
+                }
+                Some(t)
+            }
+        },
+    }
+}
+
+/// rankwidth() + rankwidth_score(), and the same on a copy whose cache was emptied
+fn width_step<G: GraphLike + 'static>(a: &AG, g: &G, tree: DecompTree, tr: &mut Tr, c: &mut Counts) -> Option<DecompTree> {
+    let g2 = g.clone();
+    let r = call(tree, move |t| {
+        let w = t.rankwidth(&g2);
+        let sc = t.rankwidth_score(&g2);
+        let mut fresh = t.clone();
+        fresh.clear_ranks();
+        (w, sc, fresh.rankwidth(&g2), fresh.rankwidth_score(&g2))
+    });
+    let r2 = finish(r, "width", json!({}), &gtags(a), tr, c, |_, (w, sc, fw, fsc)| {
+        // `nodes` (unchanged by the query) makes the event self-contained for --replay
+        Some(json!({"rankwidth": w, "score": sc, "fresh_rankwidth": fw, "fresh_score": fsc}))
+    });
+    if r2.is_some() {
+        c.widths += 1;
+    }
+    r2
+}
+
+/// one of the annealer's three random moves
+fn move_step<G: GraphLike + 'static>(a: &AG, g: &G, tree: DecompTree, kind: usize, seed2: u64, tr: &mut Tr, c: &mut Counts) -> Option<DecompTree> {
+    let mut tags = gtags(a);
+    tags.push(KINDS[kind].to_string());
+    let r = call(tree, move |t| {
+        let mut r = SmallRng::seed_from_u64(seed2);
+        match kind {
+            0 => t.swap_random_leaves(&mut r),
+            1 => t.random_local_swap(&mut r),
+            _ => t.move_random_subtree(&mut r),
+        }
+    });
+    let g2 = g.clone();
+    let r2 = finish(r, "move", json!({"kind": KINDS[kind]}), &tags, tr, c, |t, ()| {
+        Some(json!({"valid": guarded(|| t.is_valid_for_graph(&g2)).unwrap_or(false)}))
+    });
+    if r2.is_some() {
+        c.moves += 1;
+    }
+    r2
+}
+
 /// random_decomp, then `m` calls; returns the tree (None if the history had to stop)
-fn history(a: &AG, g: &Graph, s: u64, m: usize, tr: &mut Tr, c: &mut Counts) -> Option<DecompTree> {
+fn history<G: GraphLike + 'static>(a: &AG, g: &G, s: u64, m: usize, tr: &mut Tr, c: &mut Counts) -> Option<DecompTree> {
     let mut code_rng = SmallRng::seed_from_u64(s);
     let mut pick = SmallRng::seed_from_u64(s ^ 0x9e3779b97f4a7c15);
     tr.group();
     c.histories += 1;
+    if a.be == "hash" {
+        c.hash_groups += 1;
+    }
     let mut tree = match guarded(|| DecompTree::random_decomp(g, &mut code_rng)) {
         Ok(t) => t,
         Err(msg) => {
@@ -234,33 +366,7 @@ fn history(a: &AG, g: &Graph, s: u64, m: usize, tr: &mut Tr, c: &mut Counts) -> 
     let wshare = [1, 3, 5][pick.random_range(0..3)];
     for _ in 0..m {
         if pick.random_range(0..10) < wshare {
-            let g2 = g.clone();
-            match call(tree, move |t| {
-                let w = t.rankwidth(&g2);
-                let sc = t.rankwidth_score(&g2);
-                // the same on a copy whose cache was emptied
-                let mut fresh = t.clone();
-                fresh.clear_ranks();
-                (w, sc, fresh.rankwidth(&g2), fresh.rankwidth_score(&g2))
-            }) {
-                None => {
-                    c.timeouts += 1;
-                    tr.emit(json!({"k": "width", "res": "timeout", "tags": gtags(a)}));
-                    return None;
-                }
-                Some((mut t, Err(msg))) => {
-                    c.panics += 1;
-                    tr.emit(json!({"k": "width", "res": "panic", "msg": msg, "cache": cache_json(&mut t), "tags": gtags(a)}));
-                    return None;
-                }
-                Some((mut t, Ok((w, sc, fw, fsc)))) => {
-                    c.widths += 1;
-                    // `nodes` (unchanged by the query) makes the event self-contained for --replay
-                    tr.emit(json!({"k": "width", "res": "ok", "rankwidth": w, "score": sc, "fresh_rankwidth": fw, "fresh_score": fsc,
-                                   "nodes": nodes_json(&t), "cache": cache_json(&mut t), "tags": gtags(a)}));
-                    tree = t;
-                }
-            }
+            tree = width_step(a, g, tree, tr, c)?;
         } else {
             // weights close to the annealer's (1 : 4 : 5), leaf swaps a bit more often
             let kind = match pick.random_range(0..10) {
@@ -269,42 +375,264 @@ fn history(a: &AG, g: &Graph, s: u64, m: usize, tr: &mut Tr, c: &mut Counts) -> 
                 _ => 2,
             };
             let seed2: u64 = code_rng.random();
-            let mut tags = gtags(a);
-            tags.push(KINDS[kind].to_string());
-            match call(tree, move |t| {
-                let mut r = SmallRng::seed_from_u64(seed2);
-                match kind {
-                    0 => t.swap_random_leaves(&mut r),
-                    1 => t.random_local_swap(&mut r),
-                    _ => t.move_random_subtree(&mut r),
-                }
-            }) {
-                None => {
-                    c.timeouts += 1;
-                    tr.emit(json!({"k": "move", "kind": KINDS[kind], "res": "timeout", "tags": tags}));
-                    return None;
-                }
-                Some((mut t, Err(msg))) => {
-                    c.panics += 1;
-                    tr.emit(json!({"k": "move", "kind": KINDS[kind], "res": "panic", "msg": msg,
-                                   "nodes": nodes_json(&t), "cache": cache_json(&mut t), "tags": tags}));
-                    return None;
-                }
-                Some((mut t, Ok(()))) => {
-                    c.moves += 1;
-                    let valid = guarded(|| t.is_valid_for_graph(g)).unwrap_or(false);
-                    tr.emit(json!({"k": "move", "kind": KINDS[kind], "res": "ok", "valid": valid,
-                                   "nodes": nodes_json(&t), "cache": cache_json(&mut t), "tags": tags}));
-                    if !structurally_sound(&t) {
-                        c.unsound_stops += 1;
-                        return None;
-                    }
-                    tree = t;
-                }
-            }
+            tree = move_step(a, g, tree, kind, seed2, tr, c)?;
         }
     }
     Some(tree)
+}
+
+// ---------------------------------------------------------------------------------------------
+// direct calls with caller-chosen arguments (--api)
+// ---------------------------------------------------------------------------------------------
+
+fn idx1(v: &[usize]) -> Vec<usize> {
+    v.iter().map(|x| x + 1).collect()
+}
+
+/// a caterpillar over the vertices in the order `perm`, through new / add_leaf / add_interior only: leaves 0..n-1,
+/// spine n..2n-3 (spec/RankTree.tla Caterpillar with the leaf vertices permuted); bool: every returned index was the
+/// next free one
+fn hand_built(perm: &[usize]) -> (DecompTree, bool) {
+    let n = perm.len();
+    let mut t = DecompTree::new();
+    let mut idx_ok = true;
+    if n == 2 {
+        idx_ok &= t.add_leaf(1, perm[0]) == 0;
+        idx_ok &= t.add_leaf(0, perm[1]) == 1;
+        return (t, idx_ok);
+    }
+    let m = n - 2;
+    let sp = |k: usize| n + k - 1; // spine node k = 1..m, 0-based index
+    for i in 1..=n {
+        let par = if i == 1 { sp(1) } else if i == n { sp(m) } else { sp(i - 1) };
+        idx_ok &= t.add_leaf(par, perm[i - 1]) == i - 1;
+    }
+    for k in 1..=m {
+        let l = if k == 1 { 0 } else { sp(k - 1) };
+        let r = if k == m { n - 1 } else { sp(k + 1) };
+        idx_ok &= t.add_interior([l, k, r]) == sp(k);
+    }
+    (t, idx_ok)
+}
+
+fn api_history<G: GraphLike + 'static>(a: &AG, g: &G, s: u64, m: usize, tr: &mut Tr, c: &mut Counts) -> Option<DecompTree> {
+    let mut code_rng = SmallRng::seed_from_u64(s);
+    let mut pick = SmallRng::seed_from_u64(s ^ 0x51ed_270b_9e37_79b9);
+    tr.group();
+    c.histories += 1;
+    c.api_histories += 1;
+    if a.be == "hash" {
+        c.hash_groups += 1;
+    }
+    let by_hand = pick.random_bool(0.5);
+    let mut tree = if by_hand {
+        let mut perm: Vec<usize> = (0..a.n).collect();
+        for i in (1..perm.len()).rev() {
+            perm.swap(i, pick.random_range(0..=i));
+        }
+        match guarded(|| hand_built(&perm)) {
+            Ok((mut t, idx_ok)) => {
+                let mut e = begin_event(a, &mut t, "ok", "", "api_hand");
+                e["perm"] = json!(idx1(&perm));
+                e["idx_ok"] = json!(idx_ok);
+                tr.emit(e);
+                t
+            }
+            Err(msg) => {
+                c.panics += 1;
+                tr.emit(begin_event(a, &mut DecompTree::new(), "panic", &msg, "api_hand"));
+                return None;
+            }
+        }
+    } else {
+        match guarded(|| DecompTree::random_decomp(g, &mut code_rng)) {
+            Ok(mut t) => {
+                tr.emit(begin_event(a, &mut t, "ok", "", "api"));
+                t
+            }
+            Err(msg) => {
+                c.panics += 1;
+                tr.emit(begin_event(a, &mut DecompTree::new(), "panic", &msg, "api"));
+                return None;
+            }
+        }
+    };
+    let tags = gtags(a);
+    for _ in 0..m {
+        let kind = pick.random_range(0..100);
+        let seed2: u64 = pick.random();
+        let pre = nodes_json(&tree);
+        let pre_cache = cache_json(&mut tree);
+        c.direct_calls += 1;
+        tree = match kind {
+            // ---- swap_subtrees, any two disjoint subtrees; protocol of swap_random_leaves / random_local_swap
+            0..=24 => {
+                let r = call(tree, move |t| {
+                    let mut r = SmallRng::seed_from_u64(seed2);
+                    let n = t.nodes.len();
+                    for _ in 0..30 {
+                        let (c1, c2) = (r.random_range(0..n), r.random_range(0..n));
+                        let path = t.path(c1, c2);
+                        // c1 .. p1 .. p2 .. c2 with c1 # c2; p1 = p2 (siblings) is allowed, a tree edge itself (length 2) is not
+                        if path.len() >= 3 && path[path.len() - 1] == c2 {
+                            let (p1, p2) = (path[1], path[path.len() - 2]);
+                            for w in path.windows(2) {
+                                t.clear_rank((w[0], w[1]));
+                            }
+                            t.swap_subtrees((p1, c1), (p2, c2));
+                            return Some((vec![p1, c1, p2, c2], path));
+                        }
+                    }
+                    None
+                });
+                let g2 = g.clone();
+                finish(r, "swapd", json!({"pre": pre, "pre_cache": pre_cache}), &tags, tr, c, |t, x| {
+                    x.map(|(args, path)| json!({"args": idx1(&args), "path": idx1(&path), "valid": guarded(|| t.is_valid_for_graph(&g2)).unwrap_or(false)}))
+                })?
+            }
+            // ---- move_subtree(path(a, b)), any a, b at distance >= 3
+            25..=44 => {
+                let r = call(tree, move |t| {
+                    let mut r = SmallRng::seed_from_u64(seed2);
+                    let n = t.nodes.len();
+                    let selective = r.random_bool(0.5);
+                    for _ in 0..30 {
+                        let (x, y) = (r.random_range(0..n), r.random_range(0..n));
+                        let path = t.path(x, y);
+                        if path.len() >= 4 && path[path.len() - 1] == y {
+                            let ao = t.nodes[path[1]].other_neighbor(&[path[0], path[2]]);
+                            if selective {
+                                // the edges whose partition changes, and the tree edges that disappear
+                                for w in path.windows(2) {
+                                    t.clear_rank((w[1], w[0]));
+                                }
+                                t.clear_rank((ao, path[1]));
+                            } else {
+                                t.clear_ranks();
+                            }
+                            t.move_subtree(&path);
+                            return Some((path, ao, selective));
+                        }
+                    }
+                    None
+                });
+                let g2 = g.clone();
+                finish(r, "moved", json!({"pre": pre, "pre_cache": pre_cache}), &tags, tr, c, |t, x| {
+                    x.map(|(path, ao, sel)| json!({"path": idx1(&path), "ao": ao + 1, "clear": if sel { "selective" } else { "all" },
+                                                   "valid": guarded(|| t.is_valid_for_graph(&g2)).unwrap_or(false)}))
+                })?
+            }
+            // ---- set_rank / rank / clear_rank, either key order
+            45..=56 => {
+                let g2 = g.clone();
+                let r = call(tree, move |t| {
+                    let mut r = SmallRng::seed_from_u64(seed2);
+                    let es = t.edges();
+                    if es.is_empty() {
+                        return None;
+                    }
+                    let e = es[r.random_range(0..es.len())];
+                    let rev = (e.1, e.0);
+                    // the value: what the code itself computes for this edge on an emptied copy (TLC re-derives it)
+                    let val = {
+                        let mut f = t.clone();
+                        f.clear_ranks();
+                        f.compute_ranks(&g2);
+                        f.rank(e)
+                    }?;
+                    let set_clear = r.random_bool(0.4);
+                    let (k1, k2) = if r.random_bool(0.5) { (e, rev) } else { (rev, e) };
+                    if set_clear {
+                        t.set_rank(k1, val + 1); // a wrong value ...
+                        t.clear_rank(k2); // ... removed through the other spelling of the key
+                    } else {
+                        t.set_rank(k1, val);
+                    }
+                    let got = [t.rank(e), t.rank(rev)];
+                    Some((e, k1, val, set_clear, got))
+                });
+                finish(r, "setrank", json!({"pre_cache": pre_cache}), &tags, tr, c, |_, x| {
+                    x.map(|(e, k1, val, sc, got)| {
+                        json!({"edge": [e.0 + 1, e.1 + 1], "key": [k1.0 + 1, k1.1 + 1], "val": val, "variant": if sc { "set_clear" } else { "set" },
+                               "got": got.iter().map(|o| o.map(|x| x as i64).unwrap_or(-1)).collect::<Vec<_>>()})
+                    })
+                })?
+            }
+            // ---- compute_ranks alone
+            57..=66 => {
+                let g2 = g.clone();
+                let r = call(tree, move |t| t.compute_ranks(&g2));
+                finish(r, "compute", json!({"pre_cache": pre_cache}), &tags, tr, c, |_, ()| Some(json!({})))?
+            }
+            // ---- the read-only queries
+            67..=78 => {
+                let r = call(tree, move |t| {
+                    let mut r = SmallRng::seed_from_u64(seed2);
+                    let n = t.nodes.len();
+                    let es = t.edges();
+                    let mut parts = vec![];
+                    for &e in &es {
+                        for key in [e, (e.1, e.0)] {
+                            let (p1, p2) = t.partition(key);
+                            parts.push(json!({"e": [key.0 + 1, key.1 + 1], "p1": idx1(&p1), "p2": idx1(&p2)}));
+                        }
+                    }
+                    let mut paths = vec![];
+                    for _ in 0..4 {
+                        let (x, y) = (r.random_range(0..n), r.random_range(0..n));
+                        paths.push(json!({"a": x + 1, "b": y + 1, "p": idx1(&t.path(x, y))}));
+                    }
+                    json!({"parts": parts, "paths": paths, "edges": es.iter().map(|e| json!([e.0 + 1, e.1 + 1])).collect::<Vec<_>>(),
+                           "num_edges": t.num_edges()})
+                });
+                finish(r, "query", json!({}), &tags, tr, c, |_, e| Some(e))?
+            }
+            // ---- sort_nhds
+            79..=83 => {
+                let r = call(tree, move |t| t.sort_nhds());
+                finish(r, "sort", json!({"pre": pre}), &tags, tr, c, |_, ()| Some(json!({})))?
+            }
+            84..=91 => {
+                c.direct_calls -= 1;
+                width_step(a, g, tree, tr, c)?
+            }
+            _ => {
+                c.direct_calls -= 1;
+                move_step(a, g, tree, pick.random_range(0..3), seed2, tr, c)?
+            }
+        };
+    }
+    Some(tree)
+}
+
+/// the top-level entry point rankwidth::rank_decomp (own annealer, thread_rng: not reproducible, judged on its result)
+fn rank_decomp_event<G: GraphLike + 'static>(a: &AG, g: &G, tr: &mut Tr, c: &mut Counts) {
+    let g2 = g.clone();
+    let r = with_watchdog(120, move || {
+        guarded(move || {
+            let mut out = quizx::rankwidth::rank_decomp(&g2);
+            let valid = out.is_valid_for_graph(&g2);
+            let nodes = nodes_json(&out);
+            let cache = cache_json(&mut out);
+            let w = out.rankwidth(&g2);
+            let sc = out.rankwidth_score(&g2);
+            (valid, nodes, cache, w, sc)
+        })
+    });
+    let tags = gtags(a);
+    match r {
+        None => {
+            c.timeouts += 1;
+            tr.emit(json!({"k": "rank_decomp", "res": "timeout", "tags": tags}));
+        }
+        Some(Err(msg)) => {
+            c.panics += 1;
+            tr.emit(json!({"k": "rank_decomp", "res": "panic", "msg": msg, "tags": tags}));
+        }
+        Some(Ok((valid, nodes, cache, w, sc))) => {
+            tr.emit(json!({"k": "rank_decomp", "res": "ok", "valid": valid, "nodes": nodes, "cache": cache, "width": w, "score": sc, "tags": tags}));
+        }
+    }
 }
 
 #[derive(Clone, Copy)]
@@ -328,47 +656,71 @@ fn grid() -> Vec<Params> {
     v
 }
 
-/// one annealer run.  with_decomp = false: RankwidthAnnealer::new (its own random_decomp; the
-/// group starts with the annealer's initial tree).  with_decomp = true: a short history first,
-/// then new_with_decomp on the tree it left behind, cache included.
-fn anneal(a: &AG, g: &Graph, s: u64, p: Params, with_decomp: bool, tr: &mut Tr, c: &mut Counts) {
+fn milli(x: f64) -> i64 {
+    (x * 1000.0).round() as i64
+}
+
+/// one annealer run.  ctor 0: RankwidthAnnealer::new (its own random_decomp; the group starts with the annealer's
+/// initial tree).  ctor 1: new_with_decomp on `start` (the tree a history left behind, cache included).  ctor 2:
+/// new (own random tree) and then set_init_decomp(start): the starting tree is the one the caller installed.
+fn anneal<G: GraphLike + 'static>(a: &AG, g: &G, s: u64, p: Params, ctor: u8, start: Option<DecompTree>, tr: &mut Tr, c: &mut Counts) {
     let rng = SmallRng::seed_from_u64(s ^ 0xa11ea1);
     let mut tags = gtags(a);
     if p.adaptive {
         tags.push("adaptive".to_string());
     }
-    let pj = json!({"iters": p.iters, "init_temp_milli": (p.init_temp * 1000.0).round() as i64,
-                    "min_temp_milli": (p.min_temp * 1000.0).round() as i64,
-                    "cooling_milli": (p.cooling * 1000.0).round() as i64, "adaptive": p.adaptive,
-                    "ctor": if with_decomp { "new_with_decomp" } else { "new" }});
-    let mut an = if with_decomp {
-        let Some(tree) = history(a, g, s, 6, tr, c) else { return };
-        RankwidthAnnealer::new_with_decomp(g.clone(), tree, rng)
-    } else {
-        tr.group();
-        let g2 = g.clone();
-        match guarded(move || RankwidthAnnealer::new(g2, rng)) {
-            Ok(an) => {
-                let mut init = an.init_decomp().clone();
-                tr.emit(begin_event(a, &mut init, "ok", "", "anneal"));
-                an
-            }
+    let cname = ["new", "new_with_decomp", "set_init_decomp"][ctor as usize];
+    let pj = json!({"iters": p.iters, "init_temp_milli": milli(p.init_temp), "min_temp_milli": milli(p.min_temp),
+                    "cooling_milli": milli(p.cooling), "adaptive": p.adaptive, "ctor": cname});
+    let g2 = g.clone();
+    let mut an = match (ctor, start.clone()) {
+        (1, Some(tree)) => RankwidthAnnealer::new_with_decomp(g2, tree, rng),
+        (2, Some(tree)) => match guarded(move || {
+            let mut an = RankwidthAnnealer::new(g2, rng);
+            an.set_init_decomp(tree);
+            an
+        }) {
+            Ok(an) => an,
             Err(msg) => {
                 c.panics += 1;
-                tr.emit(begin_event(a, &mut DecompTree::new(), "panic", &msg, "anneal"));
+                tr.emit(json!({"k": "anneal", "params": pj, "res": "panic", "msg": msg, "tags": tags}));
                 return;
+            }
+        },
+        _ => {
+            tr.group();
+            if a.be == "hash" {
+                c.hash_groups += 1;
+            }
+            match guarded(move || RankwidthAnnealer::new(g2, rng)) {
+                Ok(an) => {
+                    let mut init = an.init_decomp().clone();
+                    tr.emit(begin_event(a, &mut init, "ok", "", "anneal"));
+                    an
+                }
+                Err(msg) => {
+                    c.panics += 1;
+                    tr.emit(begin_event(a, &mut DecompTree::new(), "panic", &msg, "anneal"));
+                    return;
+                }
             }
         }
     };
     an.set_iterations(p.iters).set_init_temp(p.init_temp).set_min_temp(p.min_temp).set_cooling_rate(p.cooling).set_adaptive_cooling(p.adaptive);
+    // the getters (drift only: the property is about the trees, not about the accessors)
+    let get = json!({"iters": an.iterations(), "init_temp_milli": milli(an.init_temp()), "min_temp_milli": milli(an.min_temp()),
+                     "cooling_milli": milli(an.cooling_rate()), "adaptive": an.adaptive_cooling()});
+    // the STARTING TREE of the property: the one the caller handed over, where there is one (not a read-back)
+    let start_tree = start.unwrap_or_else(|| an.init_decomp().clone());
+    let readback_same = nodes_json(an.init_decomp()) == nodes_json(&start_tree);
     // what the annealer itself will take as the width of its starting tree (cache as it stands)
     let g2 = g.clone();
     let init_width = {
-        let mut i2 = an.init_decomp().clone();
+        let mut i2 = start_tree.clone();
         guarded(|| i2.rankwidth(&g2)).ok()
     };
     c.anneals += 1;
-    let init_nodes = nodes_json(an.init_decomp());
+    let init_nodes = nodes_json(&start_tree);
     let g3 = g.clone();
     let r = with_watchdog(60, move || {
         guarded(move || {
@@ -391,10 +743,57 @@ fn anneal(a: &AG, g: &Graph, s: u64, p: Params, with_decomp: bool, tr: &mut Tr, 
             tr.emit(json!({"k": "anneal", "params": pj, "res": "panic", "msg": msg, "tags": tags}));
         }
         Some(Ok((valid, nodes, cache, w, sc))) => {
-            tr.emit(json!({"k": "anneal", "params": pj, "res": "ok", "valid": valid,
+            tr.emit(json!({"k": "anneal", "params": pj, "get": get, "init_readback_same": readback_same, "res": "ok", "valid": valid,
                            "init_width": init_width.map(|x| x as i64).unwrap_or(-1),
                            "final_width": w, "final_score": sc, "init_nodes": init_nodes, "nodes": nodes, "cache": cache, "tags": tags}));
         }
+    }
+}
+
+/// what: 0 = history, 1 = annealer run (ctor as given; 1 and 2 after a short history), 2 = direct-call history,
+/// then an annealer started with set_init_decomp and one rank_decomp
+fn run<G: GraphLike + 'static>(a: &AG, what: u8, s: u64, m: usize, p: Params, ctor: u8, tr: &mut Tr, c: &mut Counts) {
+    let g: G = build(a);
+    match what {
+        0 => {
+            history(a, &g, s, m, tr, c);
+        }
+        1 => {
+            if ctor == 0 {
+                anneal(a, &g, s, p, 0, None, tr, c);
+            } else if let Some(tree) = history(a, &g, s, 6, tr, c) {
+                anneal(a, &g, s, p, ctor, Some(tree), tr, c);
+            }
+        }
+        _ => {
+            if let Some(tree) = api_history(a, &g, s, m, tr, c) {
+                // a good tree to install: the best of a longer run from this tree (so that an annealer that ignored
+                // set_init_decomp and kept its own random tree would usually return something wider)
+                let good = {
+                    let g2 = g.clone();
+                    let t2 = tree.clone();
+                    with_watchdog(60, move || {
+                        guarded(move || {
+                            let mut an = RankwidthAnnealer::new_with_decomp(g2, t2, SmallRng::seed_from_u64(s ^ 0x600d));
+                            an.set_iterations(400);
+                            an.run()
+                        })
+                    })
+                    .and_then(|r| r.ok())
+                    .unwrap_or(tree)
+                };
+                anneal(a, &g, s, p, 2, Some(good), tr, c);
+                rank_decomp_event(a, &g, tr, c);
+            }
+        }
+    }
+}
+
+fn dispatch(a: &AG, hash: bool, what: u8, s: u64, m: usize, p: Params, ctor: u8, tr: &mut Tr, c: &mut Counts) {
+    if hash {
+        run::<HashGraph>(&on(a, "hash"), what, s, m, p, ctor, tr, c)
+    } else {
+        run::<Graph>(&on(a, "vec"), what, s, m, p, ctor, tr, c)
     }
 }
 
@@ -402,6 +801,7 @@ pub fn record(args: &[String], seed: u64, tr: &mut Tr) -> Value {
     let nhist: usize = arg_num(args, "--histories", 0);
     let nmoves: usize = arg_num(args, "--moves", 30);
     let nanneal: usize = arg_num(args, "--anneal", 0);
+    let napi: usize = arg_num(args, "--api", 0);
     let maxn: usize = arg_num(args, "--maxn", 8);
     let fixed = arg_flag(args, "--fixed");
     let mut c = Counts::default();
@@ -409,33 +809,58 @@ pub fn record(args: &[String], seed: u64, tr: &mut Tr) -> Value {
     let grid = grid();
     if fixed {
         for (i, a) in fixed_graphs().iter().enumerate() {
-            let g = build(a);
             c.graphs += 1;
             if nhist > 0 {
                 for rep in 0..2u64 {
-                    history(a, &g, seed.wrapping_mul(1000003) + 17 * i as u64 + rep, nmoves, tr, &mut c);
+                    // the second history of every graph runs on the hash backend
+                    dispatch(a, rep == 1, 0, seed.wrapping_mul(1000003) + 17 * i as u64 + rep, nmoves, grid[0], 0, tr, &mut c);
                 }
             }
             if nanneal > 0 {
                 for (j, p) in grid.iter().enumerate() {
-                    anneal(a, &g, seed.wrapping_mul(7919) + (i * 100 + j) as u64, *p, j % 3 == 2, tr, &mut c);
+                    dispatch(a, j % 4 == 1, 1, seed.wrapping_mul(7919) + (i * 100 + j) as u64, 0, *p, (j % 3 == 2) as u8, tr, &mut c);
+                }
+            }
+            if napi > 0 {
+                for rep in 0..2u64 {
+                    let p = grid[(i + 5 * rep as usize + seed as usize) % grid.len()];
+                    dispatch(a, rep == 1, 2, seed.wrapping_mul(104729) + 31 * i as u64 + rep, nmoves, p, 2, tr, &mut c);
                 }
             }
         }
     }
     for i in 0..nhist {
         let a = random_graph(&mut r, maxn, i);
-        let g = build(&a);
         c.graphs += 1;
-        history(&a, &g, r.random(), nmoves, tr, &mut c);
+        dispatch(&a, i % 3 == 2, 0, r.random(), nmoves, grid[0], 0, tr, &mut c);
     }
     for i in 0..nanneal {
         let a = random_graph(&mut r, maxn, nhist + i);
-        let g = build(&a);
         c.graphs += 1;
         let p = grid[(i + seed as usize) % grid.len()];
-        anneal(&a, &g, r.random(), p, i % 3 == 2, tr, &mut c);
+        dispatch(&a, i % 4 == 1, 1, r.random(), 0, p, (i % 3 == 2) as u8, tr, &mut c);
+    }
+    // short runs on larger graphs (generator of its own, see above)
+    let nbig: usize = arg_num(args, "--annealbig", 0);
+    let (bigmin, bigmax): (usize, usize) = (arg_num(args, "--bigmin", 14), arg_num(args, "--bigmax", 32));
+    let mut r3 = crate::gens::rng(seed ^ 0xc18b);
+    for i in 0..nbig {
+        let a = random_graph_between(&mut r3, bigmin, bigmax, nhist + nanneal + napi + i);
+        c.graphs += 1;
+        // the library's defaults (RankwidthAnnealer::new: 5.0 / 0.01 / 0.95), adaptive cooling on three times out of four
+        let p = Params { iters: [10, 20, 50][i % 3], init_temp: 5.0, min_temp: 0.01, cooling: 0.95, adaptive: i % 4 != 3 };
+        dispatch(&a, i % 5 == 4, 1, r3.random(), 0, p, 0, tr, &mut c);
+    }
+    // a generator of its own: adding --api to a plan leaves the graphs of the histories above unchanged
+    let mut r2 = crate::gens::rng(seed ^ 0xc18a);
+    for i in 0..napi {
+        let a = random_graph(&mut r2, maxn, nhist + nanneal + i);
+        c.graphs += 1;
+        let p = grid[(i + 7 * seed as usize) % grid.len()];
+        dispatch(&a, i % 2 == 1, 2, r2.random(), nmoves, p, 2, tr, &mut c);
     }
     json!({"graphs": c.graphs, "histories": c.histories, "moves": c.moves, "width_queries": c.widths, "annealer_runs": c.anneals,
-           "panics": c.panics, "timeouts": c.timeouts, "stopped_on_unsound_tree": c.unsound_stops})
+           "panics": c.panics, "timeouts": c.timeouts, "stopped_on_unsound_tree": c.unsound_stops,
+           "api_histories": c.api_histories, "direct_calls": c.direct_calls, "direct_calls_skipped": c.direct_skipped,
+           "groups_on_hash_backend": c.hash_groups})
 }
